@@ -87,6 +87,12 @@ def run_one(mod, case, ctx):
     res.setdefault("nontrivial", False)
     res["id"] = case.get("id")
     res["sig"] = case.get("sig", case.get("id"))
+    if case.get("debuglog"):
+        res.setdefault("counters", {})["cases_under_debug_logging"] = 1
+        for v in res.get("violations", []):
+            v["what"] = "%s [package loggers at DEBUG]" % v.get("what", "")
+        if "sigs" in res:
+            res["sigs"] = [list(sg) + ["debug logging"] for sg in res["sigs"]]
     if case.get("pyopt"):
         if not sys.flags.optimize:
             res = {"outcome": "HARNESS-ERROR", "error": "case marked python -O ran in an interpreter without -O", "violations": [], "counters": {}, "nontrivial": False,
@@ -106,6 +112,21 @@ def worker_main(argv):
     faulthandler.enable()
     mod = importlib.import_module(modname)
     env.assert_repo_is_source()
+    # (the package sets its logger's level to NOTSET when it is imported, so this comes after the import)
+    if os.environ.get("VERIF_DEBUGLOG"):
+        import logging
+
+        class _Formatting(logging.Handler):
+            def emit(self, record):
+                try:
+                    record.getMessage()        # evaluates the arguments like any real handler would
+                except Exception:
+                    pass
+        logging.disable(logging.NOTSET)        # (vlib.env silences logging for the ordinary workers)
+        lg = logging.getLogger("saml2_tophat")
+        lg.setLevel(logging.DEBUG)
+        lg.addHandler(_Formatting())
+        lg.propagate = False
     ctx = Ctx(tier, int(seed), int(widx))
     with open(shard) as f:
         cases = json.load(f)
@@ -127,21 +148,26 @@ def worker_main(argv):
 def _spawn(modname, cases, tier, seed, nworkers, timeout):
     tmp = tempfile.mkdtemp(prefix="pysaml2-verif-run-")
     procs = []
-    plain = [c for c in cases if not c.get("pyopt")]
+    plain = [c for c in cases if not c.get("pyopt") and not c.get("debuglog")]
     opt = [c for c in cases if c.get("pyopt")]
+    dbg = [c for c in cases if c.get("debuglog")]
     n = max(1, min(nworkers, len(plain)))
-    shards = [(plain[i::n], []) for i in range(n)] if plain else []
+    shards = [(plain[i::n], [], {}) for i in range(n)] if plain else []
     if opt:
         # the same workload in interpreters started with -O (assert statements compiled away): a sample of the cases, own workers
         m = max(1, min(max(2, nworkers // 3), len(opt)))
-        shards += [(opt[i::m], ["-O"]) for i in range(m)]
+        shards += [(opt[i::m], ["-O"], {}) for i in range(m)]
+    if dbg:
+        # ... and in workers where the package's loggers are at DEBUG with a handler that formats every record
+        m = max(1, min(max(2, nworkers // 3), len(dbg)))
+        shards += [(dbg[i::m], [], {"VERIF_DEBUGLOG": "1"}) for i in range(m)]
     envp = dict(os.environ)
     envp["PYTHONPATH"] = env.VERIF + os.pathsep + envp.get("PYTHONPATH", "")
     envp["PYTHONDONTWRITEBYTECODE"] = "1"
     envp.setdefault("PYTHONHASHSEED", "0")
     envp["VERIF_TMP"] = tmp
     envp["TMPDIR"] = tmp
-    for i, (sh, pyflags) in enumerate(shards):
+    for i, (sh, pyflags, extra_env) in enumerate(shards):
         sp = os.path.join(tmp, "shard-%d.json" % i)
         op = os.path.join(tmp, "out-%d.jsonl" % i)
         with open(sp, "w") as f:
@@ -150,7 +176,7 @@ def _spawn(modname, cases, tier, seed, nworkers, timeout):
         p = subprocess.Popen([sys.executable] + pyflags + ["-c",
                               "import sys; from vlib import runner; runner.worker_main(sys.argv[1:])",
                               modname, sp, op, tier, str(seed), str(i)],
-                             env=envp, cwd=tmp, stdout=lp, stderr=subprocess.STDOUT)
+                             env=dict(envp, **extra_env), cwd=tmp, stdout=lp, stderr=subprocess.STDOUT)
         procs.append((p, op, lp, len(sh), i))
     results, problems, extras = [], [], []
     deadline = time.time() + timeout
@@ -243,6 +269,13 @@ def _main(modname, argv=None):
             os.execve(sys.executable, [sys.executable] + (["-O"] if want_opt else []) + ["-W", "ignore", "-c", "import sys; from vlib import runner; sys.exit(runner.main(sys.argv[1], sys.argv[2:]))",
                                        modname] + list(argv if argv is not None else sys.argv[1:]),
                       dict(os.environ, PYTHONHASHSEED=want_hs, VERIF_SEED=want_hs, VERIF_REEXEC="1"))
+        if rp.get("case", {}).get("debuglog"):
+            import logging
+            import saml2_tophat  # noqa: F401  (resets the level on import)
+            logging.disable(logging.NOTSET)
+            logging.getLogger("saml2_tophat").setLevel(logging.DEBUG)
+            logging.getLogger("saml2_tophat").addHandler(logging.NullHandler())
+            logging.getLogger("saml2_tophat").propagate = False
         ctx = Ctx(rp.get("tier", tier), rp.get("seed", seed))
         if hasattr(mod, "setup_worker"):
             mod.setup_worker(ctx)
@@ -279,6 +312,21 @@ def _main(modname, argv=None):
             k["id"] = "%s|python-O" % c["id"]
             k["sig"] = list(c.get("sig") or [c["id"]]) + ["python -O"]
             k["pyopt"] = 1
+            clones.append(k)
+            by_id[k["id"]] = k
+        cases = cases + clones
+    if getattr(mod, "DEBUGLOG", "sample") != "none" and os.environ.get("VERIF_DEBUGLOG_SAMPLE", "1") != "0" and not args.inproc:
+        # environment dimension: logging.  A (smaller) sample again with the package's loggers at DEBUG - what a message is decided to be
+        # must not depend on whether somebody is reading the log
+        base = [c for c in cases if not c.get("pyopt")]
+        want = min(len(base), max(6, len(base) // 12)) if tier == "quick" else min(len(base), max(30, len(base) // 6))
+        step = max(1, len(base) // max(1, want))
+        clones = []
+        for c in base[((seed + 1) % step)::step]:
+            k = dict(c)
+            k["id"] = "%s|debug-logging" % c["id"]
+            k["sig"] = list(c.get("sig") or [c["id"]]) + ["debug logging"]
+            k["debuglog"] = 1
             clones.append(k)
             by_id[k["id"]] = k
         cases = cases + clones
